@@ -14,6 +14,13 @@ CHECKS = {
   design_ref="DESIGN.md §4 C01",
   technique="proptest generators + u128 reference oracle + raw LMDB snapshot diff",
   note=TRUST + "; wallet total <= 2^63; num_change_outputs > 10^4 only through select_coins_and_fee/estimate_only"),
+ "C04": dict(
+  engine="world",
+  category="exploration",
+  text="Stateful model-based search: generated histories (mine/refresh/node outages/accounts/sends/invoices/self-sends/restarts) on a real chain and real LMDB wallets; after every successful refresh the live records, the five balance figures (3 confirmation settings) and the ledger equation are compared with a ground truth rewound from the chain's UTXO set with an independently derived keychain. Exploration over sampled histories, not exhaustive.",
+  design_ref="DESIGN.md §4 C04",
+  technique="model-based stateful proptest (op vectors) + chain-derived ground-truth oracle",
+  note=TRUST + "; Chain::process_block/validate_tx and proof::rewind are ground truth; domain restrictions of the statement encoded in the generator (no cancelled tx mined, no forks, min_conf>=1, no TTL)"),
 }
 
 hooks_commits = subprocess.run(["git", "-C", "/repo", "log", "--format=%h %s"], stdout=subprocess.PIPE, text=True).stdout.splitlines()
